@@ -79,6 +79,15 @@ def run(ctx):
         lc.simulate_and_replay(ctx, name, lc.ALL_ACTS, num // 2, 14, ctx.seed + 5, label="all")
         lc.simulate_and_replay(ctx, name, lc.CACHE_ACTS, num // 2, 12, ctx.seed + 6, label="cache")
     beam_mesh_replacement(ctx)
+    # direction B: the repository's own tests as drivers, judged by Trace_Lifecycle.tla
+    from harness import repo_trace
+
+    sims = "tests/Simulations/"
+    files = [sims + f for f in ("simu_test.py", "elastic_test.py", "thermal_test.py", "beam_test.py", "weak_forms_test.py")]
+    if ctx.thorough:
+        files = [sims, "tests/Models/"]
+    repo_trace.validate(ctx, files, "thorough" if ctx.thorough else "quick")
     ctx.cov["rule"] = ("TLC simulation-mode behaviours of Lifecycle.tla (random walks over the enabled actions, seeded) replayed on real simulations; "
                        "distinct = distinct (simulation type, action, preceding action) triples executed")
+    ctx.assume("direction B: events recorded by wrappers installed from /verif (no edit of the repository) while the repository's tests run; the configuration fingerprint covers the mesh (identity, coordinates), every declared parameter of the simulation / model / sub-models and the number of Lagrange rows")
     ctx.assume("fresh simulation = new mesh object built from the harness's own shadow coordinates + new model + re-applied BC program; comparison at 1e-9 (matrices) / 1e-7 (solutions)")
